@@ -34,6 +34,11 @@ func c15ptrRoute(name string, v int) *ast.Route {
 	lit := func(n int) ast.Expr { return &ast.LiteralExpr{Value: ast.IntLiteral{Value: int64(n)}} }
 	str := func(x string) ast.Expr { return &ast.LiteralExpr{Value: ast.StringLiteral{Value: x}} }
 	vr := func(x string) ast.Expr { return &ast.VariableExpr{Name: x} }
+	if c15broken(v) {
+		return &ast.Route{Method: ast.Get, Path: "/broken", Body: []ast.Statement{
+			&ast.ReturnStatement{Value: &ast.ObjectExpr{Fields: []ast.ObjectField{{Key: "r", Value: str(name)}, {Key: "v", Value: vr("not_declared_yet")}}}},
+		}}
+	}
 	if name == "p-orders" {
 		return &ast.Route{Method: ast.Get, Path: "/orders", Body: []ast.Statement{
 			&ast.AssignStatement{Target: "lim", Value: lit(10 + v)},
@@ -62,7 +67,14 @@ func c15ptrRoute(name string, v int) *ast.Route {
 
 // c15routeSrc: version v of route name; the body mixes constants, arithmetic, a branch and a
 // loop so that optimisation tiers have something to do, and returns name and version markers.
+// c15broken: every fifth version of a definition does not compile (it reads a variable that was
+// never declared): the edit a developer saves half-way and corrects with the next save.
+func c15broken(v int) bool { return v%5 == 0 }
+
 func c15routeSrc(name string, v int) string {
+	if c15broken(v) {
+		return fmt.Sprintf("@ GET /%s/:n {\n  $ k = %d\n  > {r: \"%s\", v: %d, y: k + not_declared_yet}\n}\n", name, v, name, v)
+	}
 	return fmt.Sprintf(`@ GET /%s/:n {
   $ k = %d
   $ y = k * 7 + %d
@@ -118,7 +130,13 @@ func (d *c15defs) get(s *sim.Sim, name string, v int) *ast.Route {
 		// must not be able to influence it through shared nodes)
 		bc, err := compiler.NewCompilerWithOptLevel(compiler.OptNone).CompileRoute(c15ptrRoute(name, v))
 		if err != nil {
+			if c15broken(v) {
+				return route
+			}
 			s.InfraFail("C15: baseline compile (pointer form): " + err.Error())
+		}
+		if c15broken(v) {
+			s.InfraFail("C15: a definition meant not to compile compiled (pointer form)")
 		}
 		out, err := c15exec(bc)
 		if err != nil {
@@ -148,7 +166,13 @@ func (d *c15defs) get(s *sim.Sim, name string, v int) *ast.Route {
 	d.routes[key] = route
 	bc, err := compiler.NewCompilerWithOptLevel(compiler.OptNone).CompileRoute(route)
 	if err != nil {
+		if c15broken(v) {
+			return route
+		}
 		s.InfraFail("C15: baseline compile: " + err.Error())
+	}
+	if c15broken(v) {
+		s.InfraFail("C15: a definition meant not to compile compiled")
 	}
 	out, err := c15exec(bc)
 	if err != nil {
@@ -491,7 +515,13 @@ func c15Run(s *sim.Sim, p *sim.Params) {
 					bc, err := j.CompileRoute(o.name, route)
 					*pr = s.Stamp()
 					if err != nil {
-						s.Fail("oracle", "compile-error", fmt.Sprintf("CompileRoute(%s, v%d): %v", o.name, pv, err))
+						if c15broken(pv) {
+							// the caller passed a definition that does not compile: refusing it is right
+							s.Probe("broken-definition-refused")
+							sample = append(sample, fmt.Sprintf("t%d [%d] CompileRoute(%s, v%d) -> error (definition does not compile)", ti, call, o.name, pv))
+							continue
+						}
+						s.Fail("oracle", "compile-error", fmt.Sprintf("CompileRoute(%s, v%d): %v — the definition compiles", o.name, pv, err))
 					}
 					sample = append(sample, fmt.Sprintf("t%d [%d] CompileRoute(%s, v%d) -> %d bytes", ti, call, o.name, pv, len(bc)))
 					out := judge("CompileRoute", o.name, pv, call, bc, false)
@@ -504,7 +534,11 @@ func c15Run(s *sim.Sim, p *sim.Params) {
 					bc, err := j.CompileRouteWithTypes(o.name, route, o.types)
 					*pr = s.Stamp()
 					if err != nil {
-						s.Fail("oracle", "compile-error", fmt.Sprintf("CompileRouteWithTypes(%s, v%d): %v", o.name, pv, err))
+						if c15broken(pv) {
+							s.Probe("broken-definition-refused")
+							continue
+						}
+						s.Fail("oracle", "compile-error", fmt.Sprintf("CompileRouteWithTypes(%s, v%d): %v — the definition compiles", o.name, pv, err))
 					}
 					sample = append(sample, fmt.Sprintf("t%d [%d] CompileRouteWithTypes(%s, v%d, %v) -> %d bytes", ti, call, o.name, pv, o.types, len(bc)))
 					out := judge("CompileRouteWithTypes", o.name, pv, call, bc, true)
@@ -520,6 +554,10 @@ func c15Run(s *sim.Sim, p *sim.Params) {
 					call := s.Stamp()
 					did, err := j.CheckAdaptiveRecompilation(o.name, route)
 					if err != nil {
+						if c15broken(pv) {
+							*pr = s.Stamp()
+							continue
+						}
 						s.Fail("oracle", "compile-error", "CheckAdaptiveRecompilation: "+err.Error())
 					}
 					*pr = s.Stamp()
